@@ -18,5 +18,9 @@ func At(point string, args ...any) {}
 // with a lock held).
 func Obs(point string, args ...any) {}
 
+// Fault marks a place where an operation on an external resource may
+// legitimately fail; without the build tag it never does.
+func Fault(point string) error { return nil }
+
 // Statfs lets the simulator override the result of a statfs(2) call.
 func Statfs(stat *syscall.Statfs_t) {}
